@@ -93,6 +93,7 @@ def run(H, tier, rng):
         check(H, "exp-%d" % n, long_curve, "menger", 0.001, 4)
 
 
-Harness("C02", "curve families x 5 detectors x t1 in {0,.001,.01,.2, the curve's own end-point SMAPE} x t2 in {minimum, minimum+2}; a 2600-point "
-        "(4000 thorough) exponential for deep split trees; oracle: the statement's recursive definition executed with the real single-knee "
-        "detector", "n <= 60 (+1 long curve)").main(run)
+if __name__ == "__main__":
+    Harness("C02", "curve families x 5 detectors x t1 in {0,.001,.01,.2, the curve's own end-point SMAPE} x t2 in {minimum, minimum+2}; a 2600-point "
+            "(4000 thorough) exponential for deep split trees; oracle: the statement's recursive definition executed with the real single-knee "
+            "detector", "n <= 60 (+1 long curve)").main(run)
